@@ -254,8 +254,11 @@ def chargeLines (m : Mol) : List Line :=
 
 def mEnd : Line := "M  END".toList
 
+/-- every element symbol fits the three columns of the atom block (checked after the `fix:` commit) -/
+def elemWidthOk (m : Mol) : Bool := m.atoms.all fun a => a.elem.length ≤ 3
+
 def writeV2000 (m : Mol) (dfltBond : Nat) : Except Err (List Line) :=
-  if !coordDigitsOk m then .error .badStructure else
+  if !(coordDigitsOk m && elemWidthOk m) then .error .badStructure else
   match codeOfBond dfltBond with
   | none => .error .keyError
   | some d =>
